@@ -26,6 +26,10 @@ def one(name):
     if not os.path.exists(d + '/patch.diff'):
         return f'{name:10s} no patch'
     prop = name.split('-')[0]
+    try:        # a change may be the business of more than one check: the ones it was verified with when it was stored
+        props = list(json.load(open(d + '/meta.json'))['verification']['checks']) or [prop]
+    except Exception:  # noqa
+        props = [prop]
     wt = f'/tmp/reverify-{os.getpid()}-{name}'
     res = {'at_repo_head': head}
     try:
@@ -47,9 +51,15 @@ def one(name):
             cenv = {**os.environ, 'VERIF_REPO': wt, 'VERIF_EVIDENCE_DIR': f'/verif/.work/rv-ev-{name}',
                     'VERIF_REPLAY_DIR': f'/verif/.work/rv-replay-{name}'}
             t0 = time.time()
-            c = sh(['/verif/check', prop, '--tier', 'quick'], env=cenv, timeout=5400)
-            keys = sorted({l.split('key=')[1].split(' detail=')[0] for l in c.stdout.splitlines() if l.strip().startswith('key=')})
-            res.update(rc=c.returncode, wall_s=round(time.time() - t0, 1), keys=keys[:12], caught=c.returncode == 1)
+            res['checks'] = {}
+            keys = []
+            for pr in props:
+                c = sh(['/verif/check', pr, '--tier', 'quick'], env=cenv, timeout=5400)
+                k = sorted({l.split('key=')[1].split(' detail=')[0] for l in c.stdout.splitlines() if l.strip().startswith('key=')})
+                res['checks'][pr] = {'rc': c.returncode, 'keys': k[:12]}
+                keys += k
+            rcs = [v['rc'] for v in res['checks'].values()]
+            res.update(rc=1 if 1 in rcs else max(rcs), wall_s=round(time.time() - t0, 1), keys=keys[:12], caught=1 in rcs)
     except Exception as e:  # noqa
         res['error'] = repr(e)[:200]
     finally:
